@@ -295,4 +295,81 @@ theorem content_length_lines (env : Env) (m t v : Bytes) (hs : List Bytes) (s : 
   rw [content_length env _ s h, hvals]
   rfl
 
+/-! ### non-vacuity: concrete heads, evaluated by the kernel
+  (`decide +kernel`: plain `decide` evaluates with the elaborator's `whnf`, which takes minutes
+  on 100-byte inputs; both are checked by the kernel) -/
+
+/-- bytes of a string literal (examples only) -/
+def str (x : String) : Bytes := x.toList.map b
+
+/-- a toy URL oracle for the examples: the target must start with '/', the path is the part
+    before '?', the query items are the '&'-separated `k=v` pairs after it -/
+def envT : Env where
+  url := fun t =>
+    if t.head? ≠ some 47 then none else
+    match breakOn [63] t with
+    | none => some (t, [])
+    | some (p, q) =>
+      some (p, (splitChar 38 q).map (fun kv =>
+        match breakOn [61] kv with
+        | some (k, x) => (k, x)
+        | none => (kv, [])))
+  errPage := fun _ _ => []
+
+def sampleHead : Bytes :=
+  str "POST /a/b?z=1&k=2 HTTP/1.1\r\nHost: example\r\ncontent-length:  12 \r\nX-Tag:one\r\nCONTENT-LENGTH :\t7 \r\nx-tag:   two  words "
+
+def sampleLines : List Bytes :=
+  [str "Host: example", str "content-length:  12 ", str "X-Tag:one", str "CONTENT-LENGTH :\t7 ",
+   str "x-tag:   two  words "]
+
+/-- the sample is a rendering that satisfies the right-hand side of `accept_iff` … -/
+example : sampleHead = render Parser.POST (str "/a/b?z=1&k=2") HTTP11 sampleLines := by decide +kernel
+example : wellFormedB envT Parser.POST (str "/a/b?z=1&k=2") HTTP11 sampleLines = true := by decide +kernel
+
+/-- … it is accepted with exactly the expected fields: mixed-case duplicate headers are kept,
+    most recent first, values are trimmed, the last `Content-Length` wins -/
+example :
+    expect envT sampleHead =
+      some { parsed := true, method := 8, rawPath := str "/a/b?z=1&k=2", path := str "/a/b",
+             query := [(str "k", str "2"), (str "z", str "1")],
+             headers := [(str "CONTENT-LENGTH", str "7"), (str "content-length", str "12"),
+                         (str "Host", str "example"),
+                         (str "x-tag", str "two  words"), (str "X-Tag", str "one")],
+             total := 7 } := by decide +kernel
+
+example : (expect envT sampleHead).map (fun s => HeaderMap.values (str "X-TAG") s.headers) =
+    some [str "two  words", str "one"] := by decide +kernel
+
+/-- rejected near-misses of the grammar -/
+example : expect envT (str "GET / HTTP/1.2\r\nHost: x") = none := by decide +kernel
+example : expect envT (str "get / HTTP/1.1\r\nHost: x") = none := by decide +kernel
+example : expect envT (str "GET / HTTP/1.1\r\nHost x") = none := by decide +kernel
+example : expect envT (str "GET / x HTTP/1.1\r\nHost: x") = none := by decide +kernel
+example : expect envT (str "GET / HTTP/1.1\r") = none := by decide +kernel
+example : expect envT (str "GET / HTTP/1.1\r\n") = none := by decide +kernel
+example : expect envT (str "GET  / HTTP/1.1") = none := by decide +kernel
+example : expect envT (str "GET relative HTTP/1.1") = none := by decide +kernel
+example : (expect envT (str "GET / HTTP/1.0")).isSome = true := by decide +kernel
+
+/-- `Content-Length: -1` is reported as −1 although the header is present (why
+    `content_length` is not an "iff"); a non-numeral is reported as 0 -/
+example : (expect envT (str "GET / HTTP/1.1\r\nContent-Length: -1")).map (·.total) = some (-1) := by
+  decide +kernel
+example : (expect envT (str "GET / HTTP/1.1\r\nContent-Length: 1x")).map (·.total) = some 0 := by
+  decide +kernel
+example : (expect envT (str "GET / HTTP/1.1\r\nHost: x")).map (·.total) = some (-1) := by decide +kernel
+
+/-- `holds` evaluated on concrete runs of the model: the head above (one segment, then two
+    segments cut inside the request line) is announced once with the expected fields; a
+    rejected head is never announced -/
+def sampleApp : App := (Script.app { onHp := [.snap] })
+example : holds envT { app := sampleApp, events := [.new, .feed (sampleHead ++ CRLF2)] }
+    (Scenario.run envT { app := sampleApp, events := [.new, .feed (sampleHead ++ CRLF2)] }).log
+    = true := by decide +kernel
+example : holds envT { app := sampleApp, events := [.new, .feed (str "GET / HTTP/1.2\r\n\r\n")] }
+    (Scenario.run envT { app := sampleApp,
+                         events := [.new, .feed (str "GET / HTTP/1.2\r\n\r\n")] }).log
+    = true := by decide +kernel
+
 end Qhttp.C01
